@@ -155,27 +155,35 @@ impl Writer {
 
 struct Reader<'a> {
     r: BufReader<&'a mut File>,
+    /// Number of bytes consumed from `r` so far.
+    pos: u64,
     ids: IdMap,
     graph: &'a mut Graph,
     hashes: &'a mut Hashes,
 }
 
 impl<'a> Reader<'a> {
+    fn read_exact(&mut self, buf: &mut [u8]) -> std::io::Result<()> {
+        self.r.read_exact(buf)?;
+        self.pos += buf.len() as u64;
+        Ok(())
+    }
+
     fn read_u16(&mut self) -> std::io::Result<u16> {
         let mut buf: [u8; 2] = [0; 2];
-        self.r.read_exact(&mut buf[..])?;
+        self.read_exact(&mut buf[..])?;
         Ok(u16::from_le_bytes(buf))
     }
 
     fn read_u24(&mut self) -> std::io::Result<u32> {
         let mut buf: [u8; 4] = [0; 4];
-        self.r.read_exact(&mut buf[..3])?;
+        self.read_exact(&mut buf[..3])?;
         Ok(u32::from_le_bytes(buf))
     }
 
     fn read_u64(&mut self) -> std::io::Result<u64> {
         let mut buf: [u8; 8] = [0; 8];
-        self.r.read_exact(&mut buf)?;
+        self.read_exact(&mut buf)?;
         Ok(u64::from_le_bytes(buf))
     }
 
@@ -185,7 +193,7 @@ impl<'a> Reader<'a> {
 
     fn read_str(&mut self, len: usize) -> std::io::Result<String> {
         let mut buf = vec![0; len];
-        self.r.read_exact(buf.as_mut_slice())?;
+        self.read_exact(buf.as_mut_slice())?;
         Ok(unsafe { String::from_utf8_unchecked(buf) })
     }
 
@@ -259,11 +267,11 @@ impl<'a> Reader<'a> {
 
     fn read_signature(&mut self) -> anyhow::Result<()> {
         let mut buf: [u8; 4] = [0; 4];
-        self.r.read_exact(&mut buf[..])?;
+        self.read_exact(&mut buf[..])?;
         if buf.as_slice() != "n2db".as_bytes() {
             bail!("invalid db signature");
         }
-        self.r.read_exact(&mut buf[..])?;
+        self.read_exact(&mut buf[..])?;
         let version = u32::from_le_bytes(buf);
         if version != VERSION {
             bail!("db version mismatch: got {version}, expected {VERSION}; TODO: db upgrades etc");
@@ -271,36 +279,54 @@ impl<'a> Reader<'a> {
         Ok(())
     }
 
-    fn read_file(&mut self) -> anyhow::Result<()> {
+    /// Reads all records, returning the length of the prefix of the file
+    /// that consists of whole records.  A partial record at the end (left by
+    /// a process that died mid-write) is ignored.
+    fn read_file(&mut self) -> anyhow::Result<u64> {
         self.read_signature()?;
         loop {
+            let valid_len = self.pos;
             let mut len = match self.read_u16() {
                 Ok(r) => r,
-                Err(err) if err.kind() == std::io::ErrorKind::UnexpectedEof => break,
+                Err(err) if err.kind() == std::io::ErrorKind::UnexpectedEof => {
+                    return Ok(valid_len);
+                }
                 Err(err) => bail!(err),
             };
             let mask = 0b1000_0000_0000_0000;
-            if len & mask == 0 {
-                self.read_path(len as usize)?;
+            let res = if len & mask == 0 {
+                self.read_path(len as usize)
             } else {
                 len &= !mask;
-                self.read_build(len as usize)?;
+                self.read_build(len as usize)
+            };
+            match res {
+                Ok(()) => {}
+                Err(err) if err.kind() == std::io::ErrorKind::UnexpectedEof => {
+                    return Ok(valid_len);
+                }
+                Err(err) => bail!(err),
             }
         }
-        Ok(())
     }
 
     /// Reads an on-disk database, loading its state into the provided Graph/Hashes.
-    fn read(f: &mut File, graph: &mut Graph, hashes: &mut Hashes) -> anyhow::Result<IdMap> {
+    /// Also returns the length of the valid prefix of the file.
+    fn read(
+        f: &mut File,
+        graph: &mut Graph,
+        hashes: &mut Hashes,
+    ) -> anyhow::Result<(IdMap, u64)> {
         let mut r = Reader {
             r: std::io::BufReader::new(f),
+            pos: 0,
             ids: IdMap::default(),
             graph,
             hashes,
         };
-        r.read_file()?;
+        let valid_len = r.read_file()?;
 
-        Ok(r.ids)
+        Ok((r.ids, valid_len))
     }
 }
 
@@ -312,7 +338,19 @@ pub fn open(path: &Path, graph: &mut Graph, hashes: &mut Hashes) -> anyhow::Resu
         .open(path)
     {
         Ok(mut f) => {
-            let ids = Reader::read(&mut f, graph, hashes)?;
+            let file_len = f.metadata()?.len();
+            if file_len < 8 {
+                // The process that created the file died before it finished
+                // writing the signature; start over.
+                drop(f);
+                return Ok(Writer::create(path)?);
+            }
+            let (ids, valid_len) = Reader::read(&mut f, graph, hashes)?;
+            if valid_len < file_len {
+                // Drop a partially written record at the end so that the
+                // records we append are not parsed as its continuation.
+                f.set_len(valid_len)?;
+            }
             Ok(Writer::from_opened(ids, f))
         }
         Err(err) if err.kind() == std::io::ErrorKind::NotFound => {
